@@ -199,6 +199,12 @@ pub struct Services {
     pub strategy: Script<StratRes>,
     #[serde(default)]
     pub localization: LocSpec,
+    /// a second filter behind the first (the chain `impl FilterAdapter for Vec<T>` of passage-adapters)
+    #[serde(default, skip_serializing_if = "Option::is_none")]
+    pub filter2: Option<Script<FiltRes>>,
+    /// the `hostname` option of the real `OptionFilterAdapter` every link is wrapped in (None: always applies)
+    #[serde(default, skip_serializing_if = "Option::is_none")]
+    pub filter_hostname: Option<String>,
 }
 
 impl Default for Services {
@@ -210,6 +216,8 @@ impl Default for Services {
             filter: Script::always(Some(0), FiltRes::Identity),
             strategy: Script::always(Some(0), StratRes::First),
             localization: LocSpec::default(),
+            filter2: None,
+            filter_hostname: None,
         }
     }
 }
@@ -316,7 +324,35 @@ macro_rules! svc {
 svc!(SimStatus, StatusRes);
 svc!(SimAuth, AuthRes);
 svc!(SimDiscovery, DiscRes);
-svc!(SimFilter, FiltRes);
+/// One link of the filter chain; the first logs as `svc:filter`, a second as `svc:filter2`.
+pub struct SimFilter {
+    pub sh: Mutex<Sh>,
+    pub script: Script<FiltRes>,
+    pub n: AtomicU64,
+    pub actor: &'static str,
+    pub wname: &'static str,
+}
+impl std::fmt::Debug for SimFilter {
+    fn fmt(&self, f: &mut std::fmt::Formatter<'_>) -> std::fmt::Result {
+        write!(f, "SimFilter")
+    }
+}
+impl SimFilter {
+    pub fn new(sh: &Sh, script: Script<FiltRes>) -> Self {
+        Self { sh: Mutex::new(sh.clone()), script, n: AtomicU64::new(0), actor: "svc:filter", wname: "filter" }
+    }
+    pub fn second(sh: &Sh, script: Script<FiltRes>) -> Self {
+        Self { sh: Mutex::new(sh.clone()), script, n: AtomicU64::new(0), actor: "svc:filter2", wname: "filter2" }
+    }
+    fn sh(&self) -> Sh {
+        self.sh.lock().unwrap().clone()
+    }
+    /// The same adapter object serves the next simulated connection (its events go to that run's log).
+    pub fn rebind(&self, sh: &Sh) {
+        *self.sh.lock().unwrap() = sh.clone();
+        self.n.store(0, Ordering::SeqCst);
+    }
+}
 svc!(SimStrategy, StratRes);
 
 impl StatusAdapter for SimStatus {
@@ -481,6 +517,65 @@ impl DiscoveryAdapter for SimDiscovery {
     }
 }
 
+/// The filter adapter handed to the code under simulation: every scripted link wrapped in the real
+/// `OptionFilterAdapter`, chained through the real `impl FilterAdapter for Vec<T>`.
+/// One scripted link, shared between the chain handed to the code under simulation and the harness (which re-binds
+/// it to the next run's log when the adapter objects outlive a connection).
+#[derive(Debug)]
+pub struct Link(pub Arc<SimFilter>);
+
+impl FilterAdapter for Link {
+    async fn filter(&self, client_addr: &SocketAddr, server_addr: (&str, u16), protocol: Protocol, user: (&str, &Uuid), targets: Vec<Target>) -> passage_adapters::Result<Vec<Target>> {
+        self.0.filter(client_addr, server_addr, protocol, user, targets).await
+    }
+}
+
+pub type FilterChain = Vec<passage_adapters::filter::option::OptionFilterAdapter<Link>>;
+
+/// The filter adapter handed to the code under simulation: every scripted link wrapped in the real
+/// `OptionFilterAdapter`, chained through the real `impl FilterAdapter for Vec<T>`.
+pub fn filter_chain(sh: &Sh, s: &Services) -> FilterChain {
+    filter_chain_links(sh, s).0
+}
+
+pub fn filter_chain_links(sh: &Sh, s: &Services) -> (FilterChain, Vec<Arc<SimFilter>>) {
+    use passage_adapters::filter::option::OptionFilterAdapter;
+    let mut links = vec![Arc::new(SimFilter::new(sh, s.filter.clone()))];
+    if let Some(f2) = &s.filter2 {
+        links.push(Arc::new(SimFilter::second(sh, f2.clone())));
+    }
+    let chain = links
+        .iter()
+        .map(|l| match OptionFilterAdapter::new(s.filter_hostname.clone(), Link(l.clone())) {
+            Ok(a) => a,
+            Err(_) => panic!("scenario outside the domain: filter_hostname is not a regular expression"),
+        })
+        .collect();
+    (chain, links)
+}
+
+/// The adapter objects that hold real code (`OptionFilterAdapter`, the filter chain, `FixedLocalizationAdapter`), kept
+/// alive over a history of simulated connections the way a process keeps them for its whole life.
+pub struct Persistent {
+    pub filt: Arc<FilterChain>,
+    links: Vec<Arc<SimFilter>>,
+    pub loc: Arc<RecLocalization>,
+}
+
+impl Persistent {
+    pub fn new(s: &Services) -> Self {
+        let sh = shared(&crate::world::new_world());
+        let (chain, links) = filter_chain_links(&sh, s);
+        Self { filt: Arc::new(chain), links, loc: Arc::new(RecLocalization::new(&sh, &s.localization)) }
+    }
+    pub fn rebind(&self, sh: &Sh) {
+        for link in &self.links {
+            link.rebind(sh);
+        }
+        self.loc.rebind(sh);
+    }
+}
+
 impl FilterAdapter for SimFilter {
     async fn filter(
         &self,
@@ -492,18 +587,18 @@ impl FilterAdapter for SimFilter {
     ) -> passage_adapters::Result<Vec<Target>> {
         let i = self.n.fetch_add(1, Ordering::SeqCst);
         let call = self.script.get(i);
-        self.sh.world.lock().unwrap().ev(
-            "svc:filter",
+        self.sh().world.lock().unwrap().ev(
+            self.actor,
             "call",
             json!({"i": i, "client_addr": client_addr.to_string(), "host": server_addr.0, "port": server_addr.1,
                    "protocol": protocol, "name": user.0, "uuid": format!("{:032x}", user.1.as_u128()),
                    "targets": targets_json(&targets)}),
         );
-        wait(&self.sh, "filter", i, call.lat_ns).await;
+        wait(&self.sh(), self.wname, i, call.lat_ns).await;
         let res = match &call.res {
             FiltRes::PanicIfUser { name } => {
                 if user.0 == name {
-                    self.sh.world.lock().unwrap().fault("backend_adapter_panics");
+                    self.sh().world.lock().unwrap().fault("backend_adapter_panics");
                     panic!("{INJECTED_PANIC}");
                 }
                 Ok(targets)
@@ -520,11 +615,11 @@ impl FilterAdapter for SimFilter {
             Ok(ts) => targets_json(ts),
             Err(_) => json!("error"),
         };
-        self.sh
+        self.sh()
             .world
             .lock()
             .unwrap()
-            .ev("svc:filter", "done", json!({"i": i, "result": shown}));
+            .ev(self.actor, "done", json!({"i": i, "result": shown}));
         res
     }
 }
@@ -572,7 +667,7 @@ impl StrategyAdapter for SimStrategy {
 
 /// The real `FixedLocalizationAdapter` behind a recorder.
 pub struct RecLocalization {
-    pub sh: Sh,
+    pub sh: Mutex<Sh>,
     pub inner: FixedLocalizationAdapter,
 }
 
@@ -590,9 +685,12 @@ impl RecLocalization {
             .map(|(k, v)| (k.clone(), v.clone().into_iter().collect()))
             .collect();
         Self {
-            sh: sh.clone(),
+            sh: Mutex::new(sh.clone()),
             inner: FixedLocalizationAdapter::new(spec.default_locale.clone(), messages),
         }
+    }
+    pub fn rebind(&self, sh: &Sh) {
+        *self.sh.lock().unwrap() = sh.clone();
     }
 }
 
@@ -604,7 +702,8 @@ impl LocalizationAdapter for RecLocalization {
         params: &[(&'static str, String)],
     ) -> passage_adapters::Result<String> {
         let out = self.inner.localize(locale, key, params).await;
-        self.sh.world.lock().unwrap().ev(
+        let sh = self.sh.lock().unwrap().clone();
+        sh.world.lock().unwrap().ev(
             "svc:localization",
             "call",
             json!({"locale": locale, "key": key, "result": out.as_ref().ok()}),
